@@ -216,10 +216,18 @@ def _termination_idiom(ctx, fn, w: ast.While):
                 if isinstance(s, ast.Assign) and isinstance(s.targets[0], ast.Tuple) and s.value in pops:
                     popped = A.unparse(s.targets[0].elts[0])
             seen_adds = [c for c in A.walk_no_nested(ast.Module(w.body, [])) if isinstance(c, ast.Call) and isinstance(c.func, ast.Attribute) and c.func.attr in ("add", "append") and A.unparse(c.func.value) != work and c.args and popped is not None and A.unparse(c.args[0]) == popped]
-            gates = [s for s in A.walk_no_nested(ast.Module(w.body, [])) if isinstance(s, ast.If) and isinstance(s.test, ast.Compare) and isinstance(s.test.ops[0], (ast.In, ast.NotIn)) and popped is not None and A.unparse(s.test.left) == popped]
+            def _gate_cmps(t):
+                # membership tests of the popped item: the test itself, or a disjunct of an `or` whose arm skips the item
+                if isinstance(t, ast.Compare) and isinstance(t.ops[0], (ast.In, ast.NotIn)) and popped is not None and A.unparse(t.left) == popped:
+                    return [t]
+                if isinstance(t, ast.BoolOp) and isinstance(t.op, ast.Or):
+                    return [c for v in t.values for c in _gate_cmps(v) if isinstance(c.ops[0], ast.In)]
+                return []
+
+            gates = [s for s in A.walk_no_nested(ast.Module(w.body, [])) if isinstance(s, ast.If) and _gate_cmps(s.test) and (isinstance(s.test, ast.Compare) or (s.body and isinstance(s.body[-1], ast.Continue)))]
             if seen_adds and gates:
                 seen_name = A.unparse(seen_adds[0].func.value)
-                if any(A.unparse(g.test.comparators[0]) == seen_name for g in gates):
+                if any(A.unparse(c.comparators[0]) == seen_name for g in gates for c in _gate_cmps(g.test)):
                     # each growth is dominated (within the iteration) by the seen-add or happens on the not-seen side
                     ok_all = True
                     for gcall in grows:
@@ -342,13 +350,24 @@ def total6(ctx) -> List[Ob]:
             # work-list loops: `while work:` or `while True: if work: x = work.pop() else: return ...`
             work = None
             empty_branch: List[ast.stmt] = []
+            extra_stop = None
             if isinstance(w.test, ast.Name):
                 work = w.test.id
+            elif isinstance(w.test, ast.BoolOp) and isinstance(w.test.op, ast.And) and isinstance(w.test.values[0], ast.Name):
+                # `while work and <cond>`: a work-list only if the body also feeds it
+                cand = w.test.values[0].id
+                feeds = [c for c in A.walk_no_nested(ast.Module(w.body, [])) if isinstance(c, ast.Call) and isinstance(c.func, ast.Attribute) and A.unparse(c.func.value) == cand and c.func.attr in ("append", "extend", "update", "add", "appendleft")]
+                if feeds:
+                    work = cand
+                    extra_stop = " and ".join(A.unparse(v) for v in w.test.values[1:])
             elif isinstance(w.test, ast.Constant) and w.test.value is True:
                 for s in w.body:
                     if isinstance(s, ast.If) and isinstance(s.test, ast.Name) and s.orelse:
                         work = s.test.id
                         empty_branch = s.orelse
+            if work is not None and extra_stop is not None:
+                out.append(bad("TOTAL-6", fn.qualname, f"work-list {work} drained", ctx.where(fn, w), f"the loop also stops when '{extra_stop[:50]}' fails, while {work} still holds items: blocks reachable through the abandoned items are never visited"))
+                continue
             if work is None:
                 continue
             pops = [c for c in A.walk_no_nested(ast.Module(w.body, [])) if isinstance(c, ast.Call) and isinstance(c.func, ast.Attribute) and c.func.attr in ("pop", "popleft") and A.unparse(c.func.value) == work]
@@ -384,12 +403,16 @@ def iter1(ctx) -> List[Ob]:
         raise AnalysisError("SCFG.__iter__ / ConcealedRegionView.region_view_iterator not found")
     for fn, concealed in ((it, False), (rv, True)):
         cfg = ctx.cfg(fn)
-        loops = [w for w in A.walk_no_nested(fn.node) if isinstance(w, ast.While) and isinstance(w.test, ast.Name)]
+        loops = [w for w in A.walk_no_nested(fn.node) if isinstance(w, ast.While) and (isinstance(w.test, ast.Name) or (isinstance(w.test, ast.BoolOp) and isinstance(w.test.op, ast.And) and isinstance(w.test.values[0], ast.Name)))]
         if not loops:
             out.append(unresolved("ITER-1", fn.qualname, "work-list loop", ctx.where(fn), "no `while <work-list>:` loop found"))
             continue
         w = loops[0]
-        work = w.test.id
+        if isinstance(w.test, ast.BoolOp):
+            work = w.test.values[0].id
+            out.append(bad("ITER-1", fn.qualname, "walk ends only when the work-list is empty", ctx.where(fn, w), f"the walk also ends when '{' and '.join(A.unparse(v) for v in w.test.values[1:])[:60]}' fails: items still queued (and everything reachable through them) are not yielded"))
+        else:
+            work = w.test.id
         wn = cfg.node_of(w)
         # (1) seeded with the head
         key = "seeded with the head"
